@@ -20,7 +20,7 @@ from checks import storegen as sg
 PROP = "C05"
 THEOREMS = ["mem_insert_scan", "mem_delete_scan", "mem_refines_spec", "disk_refines_spec_partial",
             "engines_equiv_partial", "not_null_storage_witness", "engines_equiv_full_unsound"]
-WEIGHTS = {"insert": 38, "delete": 22, "compact": 10, "vacuum": 3, "reopen": 6, "create": 10, "drop": 5,
+WEIGHTS = {"insert": 34, "delete": 24, "compact": 10, "vacuum": 3, "reopen": 6, "create": 12, "drop": 8,
            "view": 2, "index": 2}
 NAMES = ["t0", "t1", "t2"]
 
@@ -36,6 +36,55 @@ class Gen5(sg.Gen):
         return super().gen_val(ty, nn, wide)
 
 
+def inject_insert_select(g, h):
+    """Adds `INSERT INTO t SELECT <exprs> FROM src [WHERE p]` statements (src and t of the same
+    column types; expressions: a column, a same-typed other column, a constant, bigint + 1).  The
+    rows are computed from the plain multiset state, so the statement is an ordinary insert step for
+    the models and the oracle; on the disk engine the source scan delivers one chunk per row-set."""
+    orc = sg.Oracle(h["names"])
+    out = []
+    r = g.r
+    for s in h["steps"]:
+        out.append(s)
+        orc.apply(s)
+        if s["k"] != "insert" or s["table"] not in orc.tables or r.random() > 0.35:
+            continue
+        src = s["table"]
+        d, rows = orc.tables[src]
+        if len(rows) > 300:
+            continue
+        sig = [c[1] for c in d.cols]
+        targets = [t for t, (dt, _) in sorted(orc.tables.items()) if [c[1] for c in dt.cols] == sig]
+        t = r.choice(targets)
+        dt = orc.tables[t][0]
+        exprs, fns = [], []
+        for j, c in enumerate(d.cols):
+            same = [i for i, c2 in enumerate(d.cols) if c2[1] == c[1]]
+            x = r.random()
+            if x < 0.5:
+                i = j
+                exprs.append(d.cols[i][0]); fns.append(lambda row, i=i: row[i])
+            elif x < 0.7:
+                i = r.choice(same)
+                exprs.append(d.cols[i][0]); fns.append(lambda row, i=i: row[i])
+            elif x < 0.85 and c[1] == "BIGINT":
+                exprs.append("%s + 1" % c[0]); fns.append(lambda row, j=j: None if row[j] is None else row[j] + 1)
+            else:
+                v = g.gen_val(c[1], True)
+                if v is None:
+                    v = 0 if c[1] != "STRING" else ""
+                exprs.append(sg.sql_lit(v, c[1])); fns.append(lambda row, v=v: v)
+        p = g.gen_pred(d) if r.random() < 0.6 else ("true",)
+        ps = sg.pred_sql(p, d)
+        newrows = [tuple(f(row) for f in fns) for row in rows if sg.pred_eval(p, row) is True]
+        sql = "insert into %s select %s from %s" % (t, ", ".join(exprs), src) + ("" if ps is None else " where " + ps)
+        st = {"k": "insert", "table": t, "rows": newrows, "def": dt, "sql": sql, "insert_select": True}
+        g.count("step:insert-select")
+        out.append(st)
+        orc.apply(st)
+    return sg.make_hist(h["id"], h["opts"], h["names"], out)
+
+
 def gen_queries(g, h):
     """[(step, sql, kind, ncmp)] against the tables alive after each step"""
     orc = sg.Oracle(h["names"])
@@ -49,7 +98,7 @@ def gen_queries(g, h):
             t = r.choice(sorted(orc.tables))
             d = orc.tables[t][0]
             nonkey = [i for i, c in enumerate(d.cols) if not c[3]]
-            kind = r.choice(["bag", "bag", "grp", "agg", "ord", "pkord", "pkrange"])
+            kind = r.choice(["bag", "bag", "grp", "agg", "ord", "join", "join", "pkord", "pkrange"])
             cols = [c[0] for c in d.cols]
             if kind == "bag":
                 p = g.gen_pred(d)
@@ -66,6 +115,25 @@ def gen_queries(g, h):
                 b = d.cols[r.choice(nonkey)][0]
                 rest = [c for c in cols if c != b]
                 sql = "select %s from %s order by %s%s" % (", ".join([b] + rest), t, b, r.choice(["", " desc"]))
+            elif kind == "join":
+                # multi-table query on unkeyed tables (no primary-key switches involved)
+                unkeyed = [n for n in sorted(orc.tables) if not orc.tables[n][0].cols[0][3]]
+                cands = [(x, i, y, j) for x in unkeyed for y in unkeyed
+                         for i, c in enumerate(orc.tables[x][0].cols) for j, c2 in enumerate(orc.tables[y][0].cols)
+                         if c[1] == c2[1] == "INT"]
+                if not cands:
+                    continue
+                x, i, y, j = r.choice(cands)
+                dx, dy = orc.tables[x][0], orc.tables[y][0]
+                if len(orc.tables[x][1]) * len(orc.tables[y][1]) > 40000:
+                    continue
+                form = r.choice(["inner", "count", "left"])
+                if form == "inner":
+                    sql = "select p.%s, q.%s from %s p, %s q where p.%s = q.%s" % (dx.cols[0][0], dy.cols[-1][0], x, y, dx.cols[i][0], dy.cols[j][0])
+                elif form == "count":
+                    sql = "select count(*) from %s p join %s q on p.%s = q.%s" % (x, y, dx.cols[i][0], dy.cols[j][0])
+                else:
+                    sql = "select p.%s, q.%s from %s p left join %s q on p.%s = q.%s" % (dx.cols[i][0], dy.cols[j][0], x, y, dx.cols[i][0], dy.cols[j][0])
             elif kind == "pkord" and d.cols[0][3]:
                 sql = "select %s from %s order by %s" % (", ".join(cols), t, cols[0])
             elif kind == "pkrange" and d.cols[0][3]:
@@ -73,7 +141,7 @@ def gen_queries(g, h):
             else:
                 continue
             g.count("query:" + kind)
-            out.append((k, sql, kind))
+            out.append((k, sql, kind, (x, i, y, j) if kind == "join" else None))
     return out
 
 
@@ -87,7 +155,7 @@ def parse_result(txt):
 
 
 def run(ck):
-    n = 80 if ck.quick() else 2000
+    n = 800 if ck.quick() else 4000
     bad = vlib.step_lean(ck, "RlModel.Thm.C05", THEOREMS, extra_targets=["drv_c05"])
     ok, log = vlib.step_cargo(ck, ["c05"])
     if not ok:
@@ -98,9 +166,10 @@ def run(ck):
     for i in range(n):
         g.null_in_nn = 0.04 if i % 2 else 0.0
         h = g.history(i, nsteps=g.r.randint(6, 20), weights=WEIGHTS, bulk=(i % 10 == 0))
+        h = inject_insert_select(g, h)
         qs = gen_queries(g, h)
         h["queries"] = qs
-        qsexp = "(queries %s)" % " ".join("(%d %s)" % (k, sg.hexs(sql)) for k, sql, _ in qs)
+        qsexp = "(queries %s)" % " ".join("(%d %s)" % (q[0], sg.hexs(q[1])) for q in qs)
         head, sep, tail = h["line"].partition(") (create ")  # insert after (names ...)
         h["line"] = head + ") " + qsexp + " (create " + tail
         hists.append(h)
@@ -140,7 +209,17 @@ def run(ck):
             # ---- engines against each other (the property itself, model-free)
             T["io"] += 1
             bad_here = None
-            if s["k"] in ("create", "drop", "view", "index", "insert", "delete"):
+            empty_chunk = False
+            if s.get("insert_select") and not s["rows"] and i["out"] == "ok:?" and i.get("mout") == "ok:0":
+                # the disk INSERT task panicked ("empty rowset", rowset_writer.rs) on a chunk of zero
+                # rows: the statement comes back Ok with no count row; the memory engine reports 0
+                empty_chunk = True
+                T["empty_chunk_inserts"] = T.get("empty_chunk_inserts", 0) + 1
+                ck.report("engines:insert-empty-chunk-disk-panic",
+                          "`%s` (no row qualifies): memory engine returns the count 0, the disk engine returns an empty result "
+                          "(its insert task panics with `empty rowset` while flushing a zero-row mem-rowset; nothing is committed, a row-set id and an empty directory are leaked)" % s["sql"][:120],
+                          replay=rp)
+            if s["k"] in ("create", "drop", "view", "index", "insert", "delete") and not empty_chunk:
                 if i.get("mout") != i["out"]:
                     bad_here = ("outcome of `%s`" % s.get("sql", s["k"])[:80], i.get("mout"), i["out"])
             if bad_here is None and sg.canon_tabs(i.get("mtabs", "")) != sg.canon_tabs(i.get("tabs", "")):
@@ -151,7 +230,7 @@ def run(ck):
                     continue
                 qi, _, rest = q.partition(":")
                 a, _, b = rest.partition("~~")
-                _, sql, kind = h["queries"][int(qi)]
+                _, sql, kind, meta = h["queries"][int(qi)]
                 ca, ra = parse_result(a)
                 cb, rb = parse_result(b)
                 tagged = kind in ("pkord", "pkrange")
@@ -165,7 +244,17 @@ def run(ck):
                         T["q_nontrivial"] += 1
                         distinct.add(sql + "|" + str(sorted(ra))[:200])
                 if not okq:
-                    if "null-in-nonnull-column" in tags:
+                    null_keys = False
+                    if kind == "join" and meta and meta[0] in orc.tables and meta[2] in orc.tables:
+                        null_keys = any(r_[meta[1]] is None for r_ in orc.tables[meta[0]][1]) and \
+                            any(r_[meta[3]] is None for r_ in orc.tables[meta[2]][1])
+                    if null_keys:
+                        T["join_null_key"] = T.get("join_null_key", 0) + 1
+                        ck.report("engines:join-null-key(C11)",
+                                  "query `%s` differs between engines: memory %s, disk %s (both join columns hold NULLs; the optimizer picks different join "
+                                  "operators for the two engines because only the disk engine has statistics, and the hash join matches NULL keys: C11/C02's finding)" % (sql, a[:160], b[:160]),
+                                  replay=dict(rp, query=sql))
+                    elif "null-in-nonnull-column" in tags:
                         bad_here = bad_here or ("query `%s`" % sql, a[:200], b[:200])
                     elif tagged:
                         T["tagged_bad"] += 1
@@ -188,7 +277,7 @@ def run(ck):
             # ---- model vs implementation, both engines
             T["mi"] += 1
             d = []
-            if m.get("out") != i["out"]:
+            if m.get("out") != i["out"] and not empty_chunk:
                 d.append(("disk outcome", i["out"], m.get("out")))
             if m.get("mout") != i.get("mout") and s["k"] in ("create", "drop", "view", "index", "insert", "delete"):
                 d.append(("memory outcome", i.get("mout"), m.get("mout")))
@@ -201,6 +290,10 @@ def run(ck):
                 ck.report("corr:%s:%s" % (s["k"], d[0][0].replace(" ", "-")),
                           "model and implementation disagree on %s after `%s`: impl=%s model=%s" % (d[0][0], s.get("sql", s["k"])[:80], d[0][1], d[0][2]),
                           replay=rp, found_input=False)
+                break
+            if empty_chunk:
+                # the leaked row-set id puts the implementation's ids one ahead of the model's (the
+                # model does not exhibit the panic): the observed compaction plans no longer transfer
                 break
             # ---- model's spec vs python oracle
             T["mo"] += 1
